@@ -1,15 +1,17 @@
 """Scripted devices behind `frappy.lib.asynconn.AsynConn` (C16).
 
-Only the LOWEST layer is faked: `FakeConn` is a concrete `AsynConn` subclass registered for the scheme `fake`
-(`AsynConn.__new__` dispatches on `SCHEME_MAP`, so `frappy.io` needs no patch); it implements `recv / send /
-flush_recv / disconnect` over a scripted `Device`, the way `AsynTcp` implements them over a socket.  The REAL
-`AsynConn.readline / readbytes` (receive buffer, line splitting, time-outs) stay in play.
+Only sockets and `select` are faked: `Net` stands in for the modules `socket` and `select` inside
+`frappy.lib.asynconn`, so the REAL `AsynTcp` (address from uri + default settings, connect, `send`, `recv`, `flush_recv`
+over the receive buffer, `disconnect`) and the REAL `AsynConn.readline / readbytes` (receive buffer, line splitting,
+time-outs) are in play; `tcp_under_test` adds nothing but the log entry `flush` at the start of `flush_recv`.
 
 A device lives in virtual time (`vlib.sched.Scheduler`): blocking reads are scheduler blocking points.
 
-    dev = Device(sched, log, 'dev', script)       # registers fake://dev
+    net = Net(sched, log); dev = Device(sched, log, 'dev', script); net.listen(dev)     # listens at ('dev', script['port'])
     script = {
       'eol': '\n',                       # appended by the device to every reply ('' for byte devices)
+      'eol_in': '\r',                    # terminates the commands the device accepts (default: as 'eol')
+      'port': 4001,                      # tcp port the device listens at
       'cmds': {'A': {'reply': 'a1', 'delay': 0.2, 'chunks': [1, 2], 'gap': 0.05}, 'S': {'reply': None}},
                                          # 'reply' may be a list: the k-th answer to that command (last element repeated)
       'default': {'reply': '{cmd}!', 'delay': 0.0},            # for commands not listed (None: silence)
@@ -22,11 +24,10 @@ A device lives in virtual time (`vlib.sched.Scheduler`): blocking reads are sche
 
 All strings are latin-1 images of bytes.  Events are appended to `log` (a `Log`), see `Log.add`.
 """
+import socket as _socket
+
 from frappy.errors import CommunicationFailedError
-from frappy.lib.asynconn import AsynConn, ConnectionClosed
-
-DEVICES = {}
-
+from frappy.lib.asynconn import AsynConn
 
 class Log:
     """time-stamped event log shared by the device, the connections and the harness instrumentation.
@@ -109,31 +110,32 @@ class Device:
         self.sched = sched
         self.log = log
         self.name = name
-        self.uri = 'fake://' + name
+        self.host = name
+        self.port = int(script.get('port', 4001))      # the device listens at (name, port)
         self.script = script
-        self.eol = script.get('eol', '\n').encode('latin-1')
+        self.eol = script.get('eol', '\n').encode('latin-1')              # terminates the device's replies
+        self.eol_in = script.get('eol_in', script.get('eol', '\n')).encode('latin-1')   # terminates the commands it accepts
         self.nconnect = 0
         self.nsend = 0
         self.chans = []
         self.uses = {}          # command -> number of times it was answered (for 'reply' given as a list)
         self.send_kind = lambda: 'send'     # the harness may classify sends (e.g. 'isend': made by checkHWIdent)
-        DEVICES[self.uri] = self
 
     def unregister(self):
-        DEVICES.pop(self.uri, None)
+        pass
 
     # ---- host side entry points -------------------------------------------------------
-    def connect(self):
+    def connect(self, target=None):
         self.sched.yield_(('connect',))
         i = self.nconnect
         self.nconnect += 1
         cid = len(self.chans)
         if i in set(self.script.get('refuse') or ()):
-            self.log.add('connect', ok=False, conn=None, attempt=i)
+            self.log.add('connect', ok=False, conn=None, attempt=i, target=target)
             raise CommunicationFailedError(f'can not connect to {self.name}, refused')
         ch = Chan(cid)
         self.chans.append(ch)
-        self.log.add('connect', ok=True, conn=cid, attempt=i)
+        self.log.add('connect', ok=True, conn=cid, attempt=i, target=target)
         now = self.sched.now
         ch.last = now
         if cid == 0:            # unsolicited output and a timed close are scripted relative to the first connect
@@ -173,7 +175,17 @@ class Device:
         if phase == 'before':
             self._eof(ch, now)
             return
-        cmd = data[:-len(self.eol)] if self.eol and data.endswith(self.eol) else data
+        if self.eol_in and data.count(self.eol_in) > 1:     # several lines in one send: the device handles them one by one
+            lines = data.split(self.eol_in)
+            for ln in lines[:-1]:
+                self._command(ch, ln + self.eol_in, n, phase, now)
+            if lines[-1]:
+                self._command(ch, lines[-1], n, phase, now)
+            return
+        self._command(ch, data, n, phase, now)
+
+    def _command(self, ch, data, n, phase, now):
+        cmd = data[:-len(self.eol_in)] if self.eol_in and data.endswith(self.eol_in) else data
         key = cmd.decode('latin-1')
         spec = (self.script.get('cmds') or {}).get(key)
         if spec is None:
@@ -213,53 +225,53 @@ class Device:
             self._eof(ch, tl)
 
 
-class FakeConn(AsynConn):
-    """lowest layer only; readline/readbytes are inherited from the real AsynConn"""
-    scheme = 'fake'
+class FakeSocket:
+    """what `socket.create_connection` returns: the socket of one connection to a scripted device.  Blocking, with a
+    time-out (as the real one made by AsynTcp); every operation on shared state is a scheduling point."""
 
-    def __init__(self, uri, *args, **kwargs):
-        super().__init__(uri, *args, **kwargs)
-        self.uri = uri
-        self.dev = DEVICES[uri]
-        self.connection = self.dev.connect()      # raises CommunicationFailedError when refused (as AsynTcp)
+    def __init__(self, dev, ch, timeout):
+        self.dev = dev
+        self.ch = ch
+        self.timeout = timeout
 
-    def disconnect(self):
-        ch = self.connection
-        if ch is not None and ch.open:      # (not when called once more from __del__, at an arbitrary point)
+    def settimeout(self, timeout):
+        self.timeout = timeout
+
+    def fileno(self):
+        return 1000 + self.ch.cid
+
+    def _hclose(self):
+        ch = self.ch
+        if ch.open:             # (not when called once more, e.g. from AsynConn.__del__ at an arbitrary point)
             self.dev.sched.yield_(('hclose',))
-            ch = self.connection
-        if ch is not None and ch.open:
+        if ch.open:
             ch.open = False
             try:
                 self.dev.log.add('hclose', conn=ch.cid)
             except Exception:
                 pass
-        self.connection = None
 
-    def send(self, data):
+    def shutdown(self, how):
+        if not self.ch.open:
+            raise OSError('not connected')
+        self._hclose()
+
+    def close(self):
+        self._hclose()
+
+    def sendall(self, data):
         self.dev.sched.yield_(('send',))
-        ch = self.connection
-        if ch is None or not ch.open:       # closed on our side by another thread meanwhile
+        if not self.ch.open:    # closed on our side by another thread meanwhile
             raise OSError('connection closed')
-        self.dev.on_send(ch, data)
+        self.dev.on_send(self.ch, data)
 
-    def _readable(self):
-        return self.connection.readable(self.dev.sched.now)
+    def readable(self):
+        return self.ch.readable(self.dev.sched.now)
 
-    def flush_recv(self):
-        """as AsynTcp.flush_recv: the buffer plus whatever can be read without waiting"""
-        sched = self.dev.sched
-        sched.yield_(('flush', self.connection.cid))
-        self.dev.log.add('flush', conn=self.connection.cid)
-        data = [self._rxbuffer]
-        while self._readable():
-            data.append(self.recv())
-        self._rxbuffer = b''
-        return b''.join(data)
-
-    def recv(self):
-        """bytes received within self.timeout (b'' on time-out); ConnectionClosed when the device has closed"""
-        ch = self.connection
+    def recv(self, bufsize):
+        """one device chunk that has arrived (at most bufsize bytes of it); b'' when the device has closed (or the socket was
+        shut down on our side by another thread); raises the socket time-out when nothing arrives within self.timeout"""
+        ch = self.ch
         sched = self.dev.sched
         log = self.dev.log
         end = sched.now + self.timeout
@@ -267,18 +279,22 @@ class FakeConn(AsynConn):
         while True:
             now = sched.now
             if not ch.open:     # closed on OUR side by another thread meanwhile: as a socket that was shut down
-                raise ConnectionClosed()
+                return b''
             if ch.items and ch.items[0][0] <= now:
-                data = ch.items.pop(0)[1]
+                data = ch.items[0][1]
+                if len(data) > bufsize:
+                    data, ch.items[0][1] = data[:bufsize], data[bufsize:]
+                else:
+                    ch.items.pop(0)
                 log.add('recv', conn=ch.cid, out='data', data=data.decode('latin-1'))
                 return data
             if ch.eof_at is not None and ch.eof_at <= now:
                 log.add('recv', conn=ch.cid, out='closed')
-                raise ConnectionClosed()
+                return b''
             remaining = end - now
             if remaining <= 0:
                 log.add('recv', conn=ch.cid, out='empty')
-                return b''
+                raise _socket.timeout('timed out')
             nxt = ch.next_time()
             wait = remaining if nxt is None else min(remaining, max(nxt - now, 0.0))
             wait = max(wait, 1e-9)
@@ -286,3 +302,72 @@ class FakeConn(AsynConn):
                 sched.now += wait
                 continue
             sched.block(('recv', ch.cid), lambda: ch.readable(sched.now) or not ch.open, wait)
+
+
+class Net:
+    """The network of one run: stands in for the modules `socket` and `select` INSIDE `frappy.lib.asynconn`
+    (`sched.patched(frappy.lib.asynconn, socket=net.socket, select=net.select)`), so that the REAL `AsynTcp` —
+    address resolution from uri and default settings, connect, send, recv, flush_recv over the receive buffer,
+    disconnect — runs against the scripted devices.  Only sockets, select and kernel buffering are replaced.
+
+    A connection attempt to an address where no device of the run listens is refused (and logged with its target)."""
+
+    def __init__(self, sched, log):
+        self.sched = sched
+        self.log = log
+        self.devices = {}       # (host, port) -> Device
+        self.attempts = 0
+        net = self
+
+        class SocketModule:
+            def __getattr__(self, name):        # exceptions, constants
+                return getattr(_socket, name)
+
+            @staticmethod
+            def create_connection(address, timeout=None, **kw):
+                return net.connect(tuple(address), timeout)
+
+        class SelectModule:
+            @staticmethod
+            def select(rlist, wlist, xlist, timeout=None):
+                if wlist or xlist or timeout != 0:
+                    raise NotImplementedError('only a poll for readability is scripted')
+                return [s for s in rlist if s.readable()], [], []
+
+        self.socket = SocketModule()
+        self.select = SelectModule()
+
+    def listen(self, dev):
+        self.devices[(dev.host, dev.port)] = dev
+
+    def connect(self, address, timeout):
+        dev = self.devices.get(address)
+        target = {'host': address[0], 'port': address[1]}
+        if dev is None:         # nobody listens there
+            self.sched.yield_(('connect',))
+            self.log.add('connect', ok=False, conn=None, attempt=None, target=target)
+            raise ConnectionRefusedError(111, 'Connection refused')
+        try:
+            ch = dev.connect(target)
+        except CommunicationFailedError:        # a scripted refusal
+            raise ConnectionRefusedError(111, 'Connection refused') from None
+        return FakeSocket(dev, ch, timeout)
+
+
+def tcp_under_test(log, sched):
+    """the real AsynTcp; the only addition is the log entry (and scheduling point) at the start of flush_recv — the event
+    `flush` — everything else is observed at the socket"""
+    from frappy.lib.asynconn import AsynTcp
+    saved = AsynConn.SCHEME_MAP.get('tcp')
+
+    class TcpUnderTest(AsynTcp):
+        scheme = 'tcp'
+
+        def flush_recv(self):
+            sched.yield_(('flush', self.connection.ch.cid))
+            log.add('flush', conn=self.connection.ch.cid)
+            return super().flush_recv()
+
+    def restore():
+        AsynConn.SCHEME_MAP['tcp'] = saved
+    return TcpUnderTest, restore
